@@ -68,6 +68,9 @@ def run(tier, seed):
         zsel = sorted(set(zones[seed % 8::8]) | set(special))
     jobs = [(z, rng, 22, True) for z in zsel]
     if not thorough:
+        # every zone of the installed pytz at least over the full range and one inner range
+        jobs += [(z, [(2000, 2038), (2005, 2012)], 22, True) for z in zones if z not in zsel]
+    if not thorough:
         # zones with transitions at the very end of a year: all 741 (start, until) pairs (grid phase x end of range)
         jobs += [(z, ranges_for('thorough'), 22, True) for z in special]
     if thorough:
@@ -91,7 +94,10 @@ def run(tier, seed):
     # dateutil (slower): fewer zones / ranges
     dz = sorted(set(zsel[seed % 4::4]) | set(special)) if thorough else sorted(set(zones[seed % 16::16]) | set(special))
     drng = ranges_for('quick') if thorough else [(2000, 2038), (2000, 2010), (2003, 2010), (2008, 2010), (2009, 2038)]
-    for name, viol, nviol, st in refdata.run_pool(refdata._check_zone_dateutil, [(z, [r], 22, True) for z in dz for r in drng]):
+    djobs = [(z, [r], 22, True) for z in dz for r in drng]
+    if not thorough:
+        djobs += [(z, [(2000, 2038)], 22, True) for z in zones if z not in dz]      # every zone once through the dateutil generator
+    for name, viol, nviol, st in refdata.run_pool(refdata._check_zone_dateutil, djobs):
         cov['generator_runs'] += st['runs']; cov['items_checked'] += st['items']; cov['transitions_required'] += st['transitions_required']
         cov['transitions_too_close_not_claimed'] += st['transitions_too_close_not_claimed']; cov['samples_required'] += st['samples_required']
         for k, d in viol:
